@@ -913,6 +913,8 @@ def binary_search_by(m, ref, args, t, sp):
     r, clo = args
     els, _ = slice_elems(m, r)
     n = len(els)
+    if m.cfg.bsearch_contract == "core":
+        return _binary_search_core(m, els, clo, sp)
     # outcome choice: Ok(0..n-1), Err(0..n)
     c = m.choose(2 * n + 1, ("bsearch", sp))
     elem_ref = lambda i: VRef(els[i][0], els[i][1], False)
@@ -942,6 +944,32 @@ def binary_search_by(m, ref, args, t, sp):
     if i < n and run(i) != 1:
         raise PathEnd("infeasible")
     return err(i)
+
+
+def _binary_search_core(m, els, clo, sp):
+    """the algorithm of core::slice::binary_search_by as shipped with the installed toolchain
+    (library/core/src/slice/mod.rs, rustc 1.96/1.97): used only where the documented contract
+    leaves the result open (several equal elements); evidence marks it toolchain-specific"""
+    size = len(els)
+    if size == 0:
+        return err(0)
+
+    def f(i):
+        o = m.call_closure(clo, [VRef(els[i][0], els[i][1], False)], sp)
+        if not isinstance(o, VStruct) or o.path != ORDERING:
+            raise Unsupported("comparator did not return Ordering")
+        return o.variant - 1
+    base = 0
+    while size > 1:
+        half = size // 2
+        mid = base + half
+        if f(mid) != 1:
+            base = mid
+        size -= half
+    c = f(base)
+    if c == 0:
+        return ok(base)
+    return err(base + (1 if c == -1 else 0))
 
 
 def default_default(m, ref, args, t, sp):
@@ -1141,3 +1169,226 @@ BY_NAME["core::cmp::min"] = cmp_min2
 BY_NAME["core::cmp::max"] = cmp_max2
 BY_TRAIT[("core::cmp::Ord", "min")] = cmp_min2
 BY_TRAIT[("core::cmp::Ord", "max")] = cmp_max2
+
+
+# ---------------------------------------------------------------------------------------------
+# further f64 / iterator / slice helpers (met in seeded changes or plausible in refactorings)
+
+
+def float_mul_add(m, ref, args, t, sp):
+    a, b, c = [load(m, x) for x in args]
+    if is_float(a) and is_float(b) and is_float(c):
+        return F.mk("add", F.mk("mul", a, b, m.fctx), c, m.fctx)
+    return ("opq", m.new_name("mul_add"))
+
+
+def float_recip(m, ref, args, t, sp):
+    a = load(m, args[0])
+    if is_float(a):
+        r = F.mk("div", F.ONE, a, m.fctx)
+        m.div_log.append((F.ONE, a, sp))
+        return r
+    return ("opq", m.new_name("recip"))
+
+
+def float_powi(m, ref, args, t, sp):
+    a, e = load(m, args[0]), simp(args[1])
+    if is_float(a) and isinstance(e, int):
+        if e >= 0:
+            return num_pow(m, ref, [a, e], t, sp)
+        return F.mk("div", F.ONE, num_pow(m, ref, [a, -e], t, sp), m.fctx)
+    return ("opq", m.new_name("powi"))
+
+
+def float_clamp(m, ref, args, t, sp):
+    x, lo, hi = [load(m, v) for v in args]
+    if is_float(x) and is_float(lo) and is_float(hi):
+        return F.fn("max", F.fn("min", x, hi), lo)
+    return ("opq", m.new_name("clamp"))
+
+
+def float_is_sign(neg):
+    def h(m, ref, args, t, sp):
+        v = load(m, args[0])
+        if is_float(v):
+            if F.is_lit(v):
+                import math
+                return (math.copysign(1.0, F.litval(v)) < 0) == neg
+            d = m.order.decide("Lt" if neg else "Gt", v, F.ZERO)
+            if d is True:
+                return True
+            d2 = m.order.decide("Gt" if neg else "Lt", v, F.ZERO)
+            if d2 is True:
+                return False
+        return ("bopq", m.new_name("is_sign"))
+    return h
+
+
+def iter_any_all(is_any):
+    def h(m, ref, args, t, sp):
+        it = iter_of(m, load(m, args[0]) if isinstance(args[0], VRef) else args[0], sp)
+        for x in pull(m, it, sp, closure_arg_ty(m, args[1], 0)):
+            r = m.call_closure(args[1], [x], sp)
+            tv = m.truth(r, sp, "any/all") if is_cond(r) else None
+            if tv is None:
+                return ("bopq", m.new_name("any_all"))
+            if tv == is_any:
+                return is_any
+        return not is_any
+    return h
+
+
+def iter_position(m, ref, args, t, sp):
+    it = iter_of(m, load(m, args[0]) if isinstance(args[0], VRef) else args[0], sp)
+    i = 0
+    for x in pull(m, it, sp, closure_arg_ty(m, args[1], 0)):
+        r = m.call_closure(args[1], [x], sp)
+        if is_cond(r) and m.truth(r, sp, "position"):
+            return some(i)
+        i += 1
+    return none()
+
+
+def iter_last(m, ref, args, t, sp):
+    it = iter_of(m, args[0], sp)
+    last = None
+    for x in pull(m, it, sp):
+        last = x
+    return none() if last is None else some(last)
+
+
+def iter_chain(m, ref, args, t, sp):
+    return VModel("chain", a=iter_of(m, args[0], sp), b=iter_of(m, args[1], sp))
+
+
+def iter_filter(m, ref, args, t, sp):
+    return VModel("filter", inner=iter_of(m, args[0], sp), f=args[1])
+
+
+_model_next_base = model_next
+
+
+def model_next(m, it, sp, item_ty=None):
+    if it.kind == "chain":
+        x = model_next(m, it.st["a"], sp, item_ty)
+        if x is not None:
+            return x
+        return model_next(m, it.st["b"], sp, item_ty)
+    if it.kind == "filter":
+        while True:
+            x = model_next(m, it.st["inner"], sp, item_ty or closure_arg_ty(m, it.st["f"], 0))
+            if x is None:
+                return None
+            c = Cell(x)
+            r = m.call_closure(it.st["f"], [VRef(c, (), False)], sp)
+            if not is_cond(r):
+                raise Unsupported("filter predicate")
+            if m.truth(r, sp, "filter"):
+                return x
+    if it.kind == "chunks_exact":
+        r, k = it.st["ref"], it.st["k"]
+        pos = it.st["pos"]
+        if r.lo + pos + k > r.hi:
+            return None
+        it.st["pos"] = pos + k
+        return VRef(r.cell, r.path, r.mut, r.lo + pos, r.lo + pos + k)
+    if it.kind == "windows":
+        r, k = it.st["ref"], it.st["k"]
+        pos = it.st["pos"]
+        if r.lo + pos + k > r.hi:
+            return None
+        it.st["pos"] = pos + 1
+        return VRef(r.cell, r.path, False, r.lo + pos, r.lo + pos + k)
+    return _model_next_base(m, it, sp, item_ty)
+
+
+def _slice_ref(m, v, mut):
+    tgt = m.read_loc(v.cell, v.path)
+    if v.lo is not None:
+        return VRef(v.cell, v.path, mut, v.lo, v.hi)
+    if isinstance(tgt, VArray):
+        return VRef(v.cell, v.path, mut, 0, len(tgt.elems))
+    raise Unsupported("slice view")
+
+
+def slice_chunks_exact(mut):
+    def h(m, ref, args, t, sp):
+        k = simp(args[1])
+        if not isinstance(k, int) or k <= 0:
+            raise Unsupported("chunks_exact(symbolic)")
+        return VModel("chunks_exact", ref=_slice_ref(m, args[0], mut), k=k, pos=0)
+    return h
+
+
+def slice_chunks(mut):
+    def h(m, ref, args, t, sp):
+        raise Unsupported("chunks (ragged tail) is not modelled")
+    return h
+
+
+def slice_windows(m, ref, args, t, sp):
+    k = simp(args[1])
+    if not isinstance(k, int) or k <= 0:
+        raise Unsupported("windows(symbolic)")
+    return VModel("windows", ref=_slice_ref(m, args[0], False), k=k, pos=0)
+
+
+def slice_copy_from(m, ref, args, t, sp):
+    dst, src = args
+    d, _ = slice_elems(m, dst)
+    s, _ = slice_elems(m, src)
+    if len(d) != len(s):
+        raise PathEnd("panic", {"kind": "copy_from_slice-len", "span": sp, "fn": m.stack[-1] if m.stack else None, "stack": list(m.stack)})
+    vals = [deep(m.read_loc(c, p)) for c, p in s]
+    for (c, p), v in zip(d, vals):
+        m.write_loc(c, p, v, sp)
+    return UNIT
+
+
+def slice_fill(m, ref, args, t, sp):
+    d, _ = slice_elems(m, args[0])
+    for c, p in d:
+        m.write_loc(c, p, deep(args[1]), sp)
+    return UNIT
+
+
+def slice_swap(m, ref, args, t, sp):
+    els, _ = slice_elems(m, args[0])
+    i, j = m.concrete_index(args[1], sp, len(els)), m.concrete_index(args[2], sp, len(els))
+    if not (0 <= i < len(els) and 0 <= j < len(els)):
+        raise PathEnd("panic", {"kind": "index-oob", "span": sp, "fn": m.stack[-1] if m.stack else None, "stack": list(m.stack)})
+    a, b = m.read_loc(*els[i]), m.read_loc(*els[j])
+    m.write_loc(els[i][0], els[i][1], b, sp)
+    m.write_loc(els[j][0], els[j][1], a, sp)
+    return UNIT
+
+
+BY_NAME.update({
+    "core::f64::<impl f64>::mul_add": float_mul_add,
+    "std::f64::<impl f64>::mul_add": float_mul_add,
+    "core::f64::<impl f64>::recip": float_recip,
+    "core::f64::<impl f64>::powi": float_powi,
+    "std::f64::<impl f64>::powi": float_powi,
+    "core::f64::<impl f64>::clamp": float_clamp,
+    "core::f64::<impl f64>::is_sign_negative": float_is_sign(True),
+    "core::f64::<impl f64>::is_sign_positive": float_is_sign(False),
+    "core::slice::<impl [T]>::chunks_exact_mut": slice_chunks_exact(True),
+    "core::slice::<impl [T]>::chunks_exact": slice_chunks_exact(False),
+    "core::slice::<impl [T]>::windows": slice_windows,
+    "core::slice::<impl [T]>::copy_from_slice": slice_copy_from,
+    "core::slice::<impl [T]>::fill": slice_fill,
+    "core::slice::<impl [T]>::swap": slice_swap,
+})
+BY_TRAIT.update({
+    ("num_traits::float::Float", "mul_add"): float_mul_add,
+    ("num_traits::float::Float", "recip"): float_recip,
+    ("num_traits::float::Float", "powi"): float_powi,
+    ("num_traits::float::Float", "is_sign_negative"): float_is_sign(True),
+    ("num_traits::float::Float", "is_sign_positive"): float_is_sign(False),
+    ("core::iter::traits::iterator::Iterator", "any"): iter_any_all(True),
+    ("core::iter::traits::iterator::Iterator", "all"): iter_any_all(False),
+    ("core::iter::traits::iterator::Iterator", "position"): iter_position,
+    ("core::iter::traits::iterator::Iterator", "last"): iter_last,
+    ("core::iter::traits::iterator::Iterator", "chain"): iter_chain,
+    ("core::iter::traits::iterator::Iterator", "filter"): iter_filter,
+})
